@@ -400,6 +400,6 @@ def _graph_alphabet(seed, which):
     # the edge objects arrive bound to OTHER vertex objects with the same ids (as after use in an earlier graph):
     # the graph's chi2 must be that of ITS vertices
     for ed in edges:
-        ed.vertices = [I.Vertex(i, I.mk_pose(V[i][0], [x + 1.0 for x in V[i][1][: G.DIM[V[i][0]]]] + V[i][1][G.DIM[V[i][0]] :])) for i in ed.vertex_ids]
+        ed.vertices = [I.Vertex(i, I.mk_pose(V[i][0], [x * (1.5 + 0.25 * i) + 1.0 + 0.37 * i for x in V[i][1][: G.DIM[V[i][0]]]] + V[i][1][G.DIM[V[i][0]] :])) for i in ed.vertex_ids]
     g = I.Graph(edges, list(verts.values()))
     return g, edges, specs
